@@ -95,3 +95,15 @@ Theorem c06_script_paths_well_formed_on_core : forall noise e ss,
       (forall n, In n (removelast path) -> CompDefs.owner_in n (source_tables g ++ intermediate_tables g) = true).
 Proof. exact script_paths_well_formed_on_core_ext. Qed.
 Print Assumptions c06_script_paths_well_formed_on_core.
+
+(** * the same for scripts of statements with expression items (Tree/ScriptExactExpr.v) *)
+From SV Require Import Tree.RenderExpr Tree.LemmaBExpr Tree.ScriptExactExpr.
+Theorem c06_script_paths_well_formed_with_expressions : forall noise e ss,
+  noise_ok noise = true -> env_ok e = true -> Forall core_stmt_x ss ->
+  exists g, script_graph e false [] (map (r_stmt_x noise) ss) = Ok g /\
+    forall b path, In path (column_lineage g b false) ->
+      2 <= List.length path /\
+      (forall n, In n (tl path) -> CompDefs.owner_in n (target_tables g ++ intermediate_tables g) = true) /\
+      (forall n, In n (removelast path) -> CompDefs.owner_in n (source_tables g ++ intermediate_tables g) = true).
+Proof. exact script_paths_well_formed_on_core_x. Qed.
+Print Assumptions c06_script_paths_well_formed_with_expressions.
